@@ -9,6 +9,9 @@ CLAIMED = {
  "C06": ("4.2", "seeded search over move histories: the real EA/FEA loops run against a simulated Process that scripts the random index stream (biased to i=0, j=n-2, i=j, full reversal, adjacent, repeated pairs), the start tour and the cancellation instant, plus runs under moptipy's real process observed through a proxy; every hand-over is re-computed with exact integers, EA monotonicity is checked, and the FEA table comes from a simulator-owned guard-banded allocator so that any address outside [0, upper bound] is seen. A clean batch is evidence, not proof.",
          "trusted: exact integer tour-length oracle, numba/numpy/moptipy; guard band catches out-of-range addresses up to 4x the largest distance + 1024",
          "deterministic simulation with fault injection (scripted process: random stream, cancellation, allocator seam; reference model)"),
+ "C10": ("4.3", "seeded search over fault plans: run_ode/multi_run_ode integrate linear plants (stable to exponentially diverging) under controllers and plants that return NaN, +-inf, 1e50, -1e11 or exactly +-1e10 always / after t* / in windows narrower or wider than the output grid / at t=0 only / when a state leaves a box, plus bundled Stuart-Landau and Lorenz systems; every returned array is checked for the row invariants, control = controller(state,t) bit-equality, J/T/differentials against independent formulas (also on non-uniform sub-grids), the analytic solution for fault-free linear loops, and bounded liveness as a call budget. A clean batch is evidence, not proof.",
+         "trusted: scipy RK45, math.fsum reference formulas, own matrix exponential; call budget calibrated x50 on the unchanged tree; stiff-but-legal closed loops are excluded from generation and never counted as non-termination",
+         "deterministic simulation with fault injection (failing peers as pure functions of simulated time/state; bounded liveness; invariants over the recorded trajectory)"),
  "C14": ("4.1", "seeded search over histories of decodings that share one encoder object and one or two destination packings, with scribbled scratch/destination state injected between operations; every decode is compared row by row with an executable reference model of the documented bottom-left rule. A clean batch is evidence, not proof.",
          "trusted: the reference model in simkit/oracles/packing.py (derived from the module docstrings), numba, numpy, moptipy",
          "deterministic simulation with fault injection (shared-object operation histories + state scribbling vs. reference model)"),
